@@ -81,9 +81,23 @@ def gen_workload(draw):
         clients.append({"who": u, "frames": [draw(gen_frame(idx)) for _ in range(nf)]})
     nsched = draw(st.just(6))
     schedules = []
-    for _ in range(nsched):
-        ln = draw(st.sampled_from([0, 3, 8, 20, 60]))
-        schedules.append(draw(st.lists(st.sampled_from([0, 0, 0, 0, 0, 1, 1, 2]), min_size=ln, max_size=ln)))
+    for k in range(nsched):
+        if k < 2:
+            # coin per yield point
+            ln = draw(st.sampled_from([0, 3, 8, 20, 60]))
+            schedules.append(draw(st.lists(st.sampled_from([0, 0, 0, 0, 0, 1, 1, 2]), min_size=ln, max_size=ln)))
+        else:
+            # switch probability per KIND of yield point (lock hand-over, SQL statement, function
+            # call, between requests): reaches windows that need a switch exactly at a lock
+            # release or exactly at a statement
+            pol = {"lock-release": draw(st.sampled_from([0, 50, 100, 100])),
+                   "lock-acquire": draw(st.sampled_from([0, 30, 100])),
+                   "sql": draw(st.sampled_from([0, 5, 30])),
+                   "call": draw(st.sampled_from([0, 2, 10, 30])),
+                   "between-requests": draw(st.sampled_from([0, 50, 100]))}
+            ln = draw(st.sampled_from([40, 150, 400]))
+            schedules.append({"policy": pol,
+                              "choices": draw(st.lists(st.integers(0, 299), min_size=ln, max_size=ln))})
     return {"clients": clients, "schedules": schedules}
 
 
@@ -135,7 +149,10 @@ def concurrent_run(spec, choices):
     srv, idx = store.fresh_server()
     H.CLOCK.now = NOW
     eng = srv.engine
-    s = sched.Scheduler(choices, TRACE_FILES)
+    if isinstance(choices, dict):
+        s = sched.Scheduler(choices["choices"], TRACE_FILES, policy=choices["policy"])
+    else:
+        s = sched.Scheduler(choices, TRACE_FILES)
     eng._lock = sched.SchedLock(s) if hasattr(eng, "_lock") else None
     event.listen(eng._data_store, "connect", lambda con, rec: con.execute("PRAGMA busy_timeout = 30"))
     eng._data_store.dispose()
